@@ -1,6 +1,7 @@
 package checks
 
 import (
+	"context"
 	"fmt"
 	"math"
 	"reflect"
@@ -53,6 +54,7 @@ func init() {
 	c06Once = eng.NewKind(c, "once", judgeOnce)
 	c06Compact = eng.NewKind(c, "compact", judgeCompact)
 	c06Preset = eng.NewKind(c, "preset-locals", judgePreset)
+	c06Ctx = eng.NewKind(c, "context", judgeCtx)
 }
 
 var selVals []cval
@@ -364,6 +366,7 @@ func judgePreset(c ObsCase) *eng.Fail {
 	}
 	data := selData()
 	data["$rate"], data["$seen"] = 0.25, "before"
+	data["u0"], data["i16z"], data["u5"] = uint8(0), int16(0), uint16(5)
 	o, err := evalWith("[("+parts[0]+")]", data)
 	if err != nil || o.panicked || o.err != nil {
 		return eng.F("C06/eval", "%s: %v %v %s", parts[0], err, o.err, o.panicMsg)
@@ -372,6 +375,49 @@ func judgePreset(c ObsCase) *eng.Fail {
 		return eng.F("C06/unselected-branch-took-effect", "with $rate = 0.25 and $seen = 'before' in the data, %s = %s, expected %s (only a selected branch is evaluated, so only its assignments happen)", parts[0], got, parts[1])
 	}
 	outcome("preset " + parts[1])
+	return nil
+}
+
+var c06Ctx *eng.Kind[ObsCase]
+
+// c06NilCtx: a pointer type that implements context.Context; a nil pointer of it is a typed nil
+type c06NilCtx struct{ context.Context }
+
+// judgeCtx: the keyword ctx under a context that is null (no context, or a typed nil pointer) or an object.
+func judgeCtx(c ObsCase) *eng.Fail {
+	var ctx context.Context
+	switch c.E {
+	case "typed-nil":
+		ctx = (*c06NilCtx)(nil)
+	case "object":
+		ctx = context.Background()
+	}
+	src := "[!!ctx, ctx ? 1 : 2, ctx ?? 'd', ctx || 'd', (ctx && 1) == null, ($c = ctx, !$c), ctx == null, ctx === null]"
+	want := "[bool:false,num:2,str:\"d\",str:\"d\",bool:true,bool:true,bool:true,bool:true]"
+	if c.E == "object" {
+		src = "[!!ctx, ctx ? 1 : 2, (ctx ?? 'd') === ctx, (ctx || 'd') === ctx, ctx && 1, ctx == null, ctx === null]"
+		want = "[bool:true,num:1,bool:true,bool:true,num:1,bool:false,bool:false]"
+	}
+	p, err := cachedParse(src)
+	if err != nil {
+		return eng.F("C06/parse", "%s: %v", src, err)
+	}
+	o := safeResolve(formula.NewRunner(), ctx, p.Expression)
+	if o.panicked || o.err != nil {
+		return eng.F("C06/eval", "%s under a %s context: %v %s", src, c.E, o.err, o.panicMsg)
+	}
+	if got := show(o.val); got != want {
+		return eng.F("C06/context-truthiness", "under a %s context %s = %s, expected %s", c.E, src, got, want)
+	}
+	if c.E != "object" {
+		// ! on the keyword itself: null is falsy, so its negation is true
+		p2, _ := cachedParse("[!ctx]")
+		o2 := safeResolve(formula.NewRunner(), ctx, p2.Expression)
+		if o2.panicked || o2.err != nil || show(o2.val) != "[bool:true]" {
+			return eng.F("C06/context-truthiness", "under a %s context !ctx = %s %v %s, expected true (ctx is null there: !!ctx is false, ctx ?? 'd' is 'd')", c.E, show(o2.val), o2.err, o2.panicMsg)
+		}
+	}
+	outcome("ctx " + c.E)
 	return nil
 }
 
@@ -570,13 +616,24 @@ func runC06(w *eng.W) {
 			c06Compact.Do(w, cc)
 		}
 	}
+	if w.Take() {
+		for _, k := range []string{"none", "typed-nil", "object"} {
+			w.State(1)
+			w.Trans(9)
+			w.Trace(1)
+			w.Note("leg:context", 1)
+			c06Ctx.Do(w, ObsCase{E: k})
+		}
+	}
 	// locals that the caller supplied (or an earlier evaluation left) and assignments in branches that
 	// are not selected: a local is bound only when its assignment is evaluated
 	if w.Take() {
 		for _, c := range []struct{ src, want string }{
 			{"0 ? ($rate = 1) : $rate", "num:0.25"}, {"1 ? $rate : ($rate = 1)", "num:0.25"}, {"$rate = $rate ?? 0.1", "num:0.25"},
 			{"[1 ? 5 : ($seen = 'x'), $seen]", "[num:5,str:\"before\"]"}, {"[$unset ?? 'none', 0 ? ($unset = 1) : 2, $unset]", "[str:\"none\",num:2,null]"},
-			{"$rate ? ($seen = $seen + '!') : ($seen = 'no'), $seen", "str:\"before!\""}, {"[0 ? ($rate = 3) : 4, 1 ? 6 : ($rate = 5), $rate]", "[num:4,num:6,num:0.25]"},
+			{"$rate ? ($seen = $seen + '!') : ($seen = 'no'), $seen", "str:\"before!\""},
+			// zeros of the other built-in integer types are numeric zeros
+			{"[!!u0, u0 ? 1 : 2, u0 || 'R', !u0, !!i16z, i16z ?? 9, !!u5, u5 && 1]", "[bool:false,num:2,str:\"R\",bool:true,bool:false,num:0,bool:true,num:1]"}, {"[0 ? ($rate = 3) : 4, 1 ? 6 : ($rate = 5), $rate]", "[num:4,num:6,num:0.25]"},
 		} {
 			w.State(1)
 			w.Trans(1)
